@@ -171,7 +171,14 @@ func C15(c *Ctx) {
 	c.Rule(r3, "Manager.writeSnapshot and Manager.Current read every field of Version; replay and createNew initialise every map field of Version")
 	vf := structFields(c, "manifest", "Version")
 	for _, n := range []string{"Manager.writeSnapshot", "Manager.Current"} {
-		if fn := c.Fn("manifest", n); fn != nil {
+		fn := c.FnOpt("manifest", n)
+		if fn == nil && n == "Manager.writeSnapshot" {
+			fn = c.FnOpt("manifest", "writeSnapshot") // a plain function taking the version
+		}
+		if fn == nil {
+			fn = c.Fn("manifest", n)
+		}
+		if fn != nil {
 			reads := fieldReads(fn)
 			for _, f := range vf {
 				c.Decide(reads["manifest.Version."+f], r3, key(fn, "reads:Version."+f), fn.Pos(), 1, "covered", "Version."+f+" is not covered by "+n+" (dropped by a rewrite / snapshot)")
@@ -255,32 +262,29 @@ func C15(c *Ctx) {
 	const r5 = "K1.rewrite-publish-order"
 	c.Rule(r5, "Manager.rewriteLocked: writeSnapshot()==nil → Flush()==nil → (Sync()==nil when syncWrites) → Close()==nil → writeCurrent()==nil before the old manifest is removed and before the new file becomes m.manifest; writeCurrent writes the temp file and renames it over CURRENT (WriteFile()==nil → Rename)")
 	if fn := c.Fn("manifest", "Manager.rewriteLocked"); fn != nil {
-		ws := Named("manifest.(*Manager).writeSnapshot")
+		ws := Named("manifest.(*Manager).writeSnapshot", "manifest.writeSnapshot")
 		fl := Named("(*bufio.Writer).Flush")
 		wc := Named("manifest.(*Manager).writeCurrent")
-		beforeOK(c, r5, fn, "writeSnapshot", ws, "Flush", fl, 1)
-		beforeOK(c, r5, fn, "Flush", fl, "writeCurrent", wc, 1)
-		// Close()==nil of the new file precedes writeCurrent: take Close calls on the success path
-		var okClose []ssa.CallInstruction
-		for _, cl := range Calls(fn, false, Named("(vfs.File).Close", "(io.Closer).Close")) {
-			if ev := ErrResult(cl); ev != nil && ev.Referrers() != nil && len(*ev.Referrers()) > 0 {
-				okClose = append(okClose, cl)
-			}
-		}
-		for i, w := range Calls(fn, false, wc) {
-			succOK(c, r5, key(fn, fmt.Sprintf("writeCurrent[%d]<-ok(new.Close)", i+1)), fn, okClose, "new manifest Close", w.(ssa.Instruction), "writeCurrent")
-		}
-		// sync on the syncWrites edge
-		syncs := Calls(fn, false, Named("(vfs.File).Sync"))
-		for i, w := range Calls(fn, false, wc) {
-			succOK(c, r5, key(fn, fmt.Sprintf("writeCurrent[%d]<-ok(Sync)|!syncWrites", i+1)), fn, syncs, "Sync", w.(ssa.Instruction), "writeCurrent", boolFieldEdges(fn, "manifest.Manager", "syncWrites", false))
-		}
+		noSync := func(f *ssa.Function) edgeSet { return boolFieldEdges(f, "manifest.Manager", "syncWrites", false) }
+		// the steps may be grouped into a helper (e.g. one that writes, flushes, syncs and closes the
+		// new file): a call stands for a step when its success implies that the step succeeded
+		succChain(c, r5, fn, []chainStep{
+			{"writeSnapshot", ws, nil},
+			{"Flush", fl, nil},
+			{"Sync", Named("(vfs.File).Sync"), noSync},
+			{"new.Close", Named("(vfs.File).Close", "(io.Closer).Close"), nil},
+			{"writeCurrent", wc, nil},
+		}, 2)
 		// removal of the old manifest and adoption of the new one after writeCurrent()==nil
 		wcs := Calls(fn, false, wc)
+		var early []ssa.CallInstruction
+		for _, m := range []Matcher{ws, fl} {
+			early = append(early, verifySites(c, fn, m, 1)...)
+		}
 		for i, rm := range Calls(fn, false, Named("(vfs.FS).Remove")) {
 			// cleanup removes of the *new* path on error paths are dominated by a non-nil edge; skip those
 			errPath := false
-			for _, s := range append(Calls(fn, false, ws), Calls(fn, false, fl)...) {
+			for _, s := range early {
 				if ev := ErrResult(s); ev != nil {
 					for _, e := range NilEdges(fn, map[ssa.Value]bool{ev: true}) {
 						if EdgeDominates(e.NonNil[0], e.NonNil[1], rm.Block()) {
@@ -338,3 +342,59 @@ func C15(c *Ctx) {
 }
 
 func allFieldMutations(fn *ssa.Function, owner string) []ssa.Instruction { return nil }
+
+type chainStep struct {
+	name string
+	m    Matcher
+	skip func(*ssa.Function) edgeSet // edges that satisfy the step by themselves (optional)
+}
+
+// succChain: the steps succeed one after the other – every site of step i+1 lies behind the
+// success edge of step i.  A site is the matching call, or the call of a same-package helper
+// whose success implies the step (verifySites); two consecutive steps inside one helper are
+// ordered inside that helper.
+func succChain(c *Ctx, rule string, fn *ssa.Function, steps []chainStep, depth int) {
+	sitesOf := func(s chainStep) []ssa.CallInstruction {
+		if s.skip != nil {
+			return verifySites(c, fn, s.m, depth, s.skip)
+		}
+		return verifySites(c, fn, s.m, depth)
+	}
+	for i := 1; i < len(steps); i++ {
+		prev, cur := steps[i-1], steps[i]
+		ps, cs := sitesOf(prev), sitesOf(cur)
+		if len(cs) == 0 {
+			c.Fail(rule, key(fn, "has:"+cur.name), fn.Pos(), 1, "expected at least 1 call(s) to %s in %s, found 0", cur.name, FuncName(fn))
+			continue
+		}
+		for j, b := range cs {
+			// a direct site whose outcome is discarded is best-effort cleanup (`_ = f.Close()` on an
+			// error path), not the step
+			if ev := ErrResult(b); cur.m(b.Common()) && (ev == nil || ev.Referrers() == nil || len(*ev.Referrers()) == 0) {
+				continue
+			}
+			k := key(fn, fmt.Sprintf("%s[%d]<-ok(%s)", cur.name, j+1, prev.name))
+			same := false
+			var others []ssa.CallInstruction
+			for _, p := range ps {
+				if p == b {
+					same = true
+				} else if ev := ErrResult(p); !prev.m(p.Common()) || (ev != nil && ev.Referrers() != nil && len(*ev.Referrers()) > 0) {
+					others = append(others, p)
+				}
+			}
+			if same && depth > 0 && !cur.m(b.Common()) {
+				if h := StaticFn(b.Common()); h != nil && h.Blocks != nil {
+					c.Touch(h)
+					succChain(c, rule, h, []chainStep{prev, cur}, depth-1)
+					continue
+				}
+			}
+			if prev.skip != nil {
+				succOK(c, rule, k, fn, others, prev.name, b.(ssa.Instruction), cur.name, prev.skip(fn))
+			} else {
+				succOK(c, rule, k, fn, others, prev.name, b.(ssa.Instruction), cur.name)
+			}
+		}
+	}
+}
